@@ -253,6 +253,7 @@ def run(cid, tier, jobs=0):
         'biom_functions_executed': len(reach),
         'biom_function_calls': dict(sorted(reach.items(),
                                            key=lambda kv: -kv[1])[:45]),
+        'biom_functions_executed_list': sorted(reach),
         'anchors_required': getattr(mod, 'ANCHORS', []),
         'extra_lane': None if lane is None else lane[1],
         'sanitizer_lane': None if san is None else {
